@@ -53,6 +53,11 @@ PartBodies == {<<>>, <<97>>, <<97, 98, 99, 100>>, <<13>>, <<10>>, <<13, 10>>, <<
 C15Values ==
     {[kind |-> "resp", ser |-> sr, status |-> st[1], phrase |-> st[2], headers |-> hs, parts |-> <<Part("text/plain", 0, Len(b), Len(b), b)>>] :
         sr \in {"assoc", "method"}, st \in StatusSample, hs \in {<<>>, <<H("X-One", "1"), H("Server", "rws: x")>>}, b \in PartBodies}
+    \* media types as they occur in practice: parameters, upper case, structured suffixes
+    \cup {[kind |-> "resp", ser |-> sr, status |-> 200, phrase |-> "OK", headers |-> <<>>, parts |-> <<Part(ct, 0, 2, 2, <<104, 105>>)>>] :
+            sr \in {"assoc", "method"}, ct \in {"text/html; charset=UTF-8", "Text/HTML", "application/vnd.api+json; profile=AbC", "IMAGE/PNG", "text/plain;charset=us-ascii"}}
+    \cup {[kind |-> "resp", ser |-> sr, status |-> 206, phrase |-> "Partial Content", headers |-> <<>>,
+           parts |-> <<Part("text/html; charset=UTF-8", 0, 2, 9, <<104, 105>>), Part("Application/JSON", 3, 5, 9, <<123, 125>>)>>] : sr \in {"assoc", "method"}}
     \cup {[kind |-> "resp", ser |-> sr, status |-> 206, phrase |-> "Partial Content", headers |-> <<H("X-One", "1")>>,
            parts |-> <<Part("text/plain", 0, Len(b1), 1000, b1), Part("image/png", 10, 10 + Len(b2), 1000, b2)>>] :
         sr \in {"assoc", "method"}, b1 \in PartBodies, b2 \in PartBodies}
@@ -82,6 +87,9 @@ C16Values ==
     \cup {[kind |-> "multipart", boundary |-> "--b", parts |-> <<MPart(<<CD("f1")>>, b1), MPart(<<CD("f2"), H("Content-Type", "text/plain")>>, b2)>>] :
             b1 \in MBodies, b2 \in MBodies}
     \cup {[kind |-> "multipart", boundary |-> "--b", parts |-> [i \in 1..n |-> MPart(<<CD("f"), H("X-I", ToString(i))>>, <<96 + i>>)]] : n \in 3..8}
+\* long bodies without any line feed (a reader that works line by line meets lines of 8 KiB, 16 KiB, 64 KiB), also ending in "--"
+C16Long == {[kind |-> "multipart", boundary |-> "--b", parts |-> <<MPart(<<CD("f")>>, [i \in 1..n |-> IF i > n - 2 THEN t ELSE 65]), MPart(<<CD("g")>>, <<122>>)>>] :
+              n \in {8191, 8192, 8193, 16384, 65536}, t \in {65, 45}}
 C16Corrupt == {[kind |-> "multipart_corrupt", cls |-> c] : c \in {"no_opening_boundary", "no_closing_boundary", "part_without_headers"}}
 \* the same for multipart/form-data: documents written by the library itself, then one structural element removed
 C16Structs == {[kind |-> "multipart_struct", boundary |-> bd, n |-> n, brk |-> b, at |-> a] :
@@ -105,6 +113,11 @@ C17Values ==
     \cup {[kind |-> "map", pairs |-> <<<<k, "v">>>>] : k \in Strs2}
     \cup {[kind |-> "map", pairs |-> <<<<"k1", v1>>, <<"k2", v2>>>>] : v1 \in Atoms, v2 \in Atoms}
     \cup {[kind |-> "map", pairs |-> [i \in 1..n |-> <<"key" \o ToString(i), "v&=%" \o ToString(i)>>]] : n \in {0, 3, 20}}
+    \* counts around powers of two; long values (the harness expands ["rep", unit, n] to the unit repeated n times): ASCII and
+    \* multi-byte text of periods 2, 3, 4, 5 bytes, so that a cut at any byte offset splits a character in one of them
+    \cup {[kind |-> "map", pairs |-> [i \in 1..n |-> <<"f" \o ToString(i), "v" \o ToString(i)>>]] : n \in {31, 32, 33, 64, 65}}
+    \cup {[kind |-> "map", pairs |-> <<<<"long", <<"rep", u, n>>>>, <<"after", "x">>>>] :
+            u \in {"a", "é", "aé", "😀", "a😀", "€"}, n \in {40, 100, 300}}
     \* distinct names that differ only in letter case are distinct fields
     \cup {[kind |-> "map", pairs |-> <<<<"Name", "1">>, <<"name", "2">>, <<"NAME", "3">>>>],
           [kind |-> "map", pairs |-> <<<<"id", "a">>, <<"x", "y">>, <<"ID", "b">>>>]}
@@ -176,10 +189,14 @@ C19Arrays ==
     \cup {Arr("bool", xs) : xs \in {<<>>, <<"true">>, <<"false", "true", "false">>}}
     \cup {Arr("null", xs) : xs \in {<<>>, <<"null">>, <<"null", "null">>}}
 
-Cases == CASE Mode = "c19" -> C19Objects \cup C19Arrays
+\* property names as real structs have them
+C19Odd == {[kind |-> "json_odd", fields |-> f] : f \in
+             {("userName" :> u) @@ ("ID" :> id) @@ ("x" :> b) @@ ("xx" :> "two") @@ ("X" :> "upper") @@ ("a_b2" :> "-7") @@ ("true" :> "yes") @@ ("null" :> "0") @@ ("Is Set" :> b)
+                : u \in {"alice", "", "a,b: {c}"}, id \in {"1", "-170141183460469231731687303715884105728"}, b \in {"true", "false"}}}
+Cases == CASE Mode = "c19" -> C19Objects \cup C19Arrays \cup C19Odd
            [] Mode = "c14" -> C14Values \cup C14Lines
            [] Mode = "c15" -> C15Values \cup {AllStatuses} \cup C15Corrupt \cup C15StatusLines \cup C15Structs
-           [] Mode = "c16" -> C16Values \cup C16Corrupt \cup C16Extract \cup C16Structs
+           [] Mode = "c16" -> C16Values \cup C16Corrupt \cup C16Extract \cup C16Structs \cup C16Long
            [] Mode = "c17" -> C17Values
 Init == case \in Cases
 Next == UNCHANGED case
